@@ -135,7 +135,56 @@ fn check_cfg<const M: usize, const K: usize>(acts: [u8; K], hn: [u8; M], fnm: [u
 
 /// All name configurations of one operation sequence on 2 input headers: duplicates in mixed
 /// case, one match, no match (filter names equal or different for two-filter sequences).
+/// A configuration with an EMPTY header value (shape): [("a", ""), ("B", v)], filter name a.
+fn check_cfg_empty_value<const K: usize>(acts: [u8; K]) {
+    let hv = ascii_bytes::<1>();
+    let fv: [u8; K] = ascii_bytes::<K>();
+    let headers = vec![Header { name: s1(b'a'), value: String::new() }, Header { name: s1(b'B'), value: s1(hv[0]) }];
+    let mut filters = Vec::with_capacity(K);
+    let mut k = 0;
+    while k < K {
+        filters.push(HeaderFilter { action: String::from(action_name(acts[k])), header: s1(b'a'), value: s1(fv[k]), id: None, target_hash: None });
+        k += 1;
+    }
+    let out = match FilterHeaderAction::new(filters) {
+        None => headers,
+        Some(fa) => {
+            let o = fa.filter(headers, None);
+            std::mem::forget(fa);
+            o
+        }
+    };
+    // reference with value 0 standing for the empty value
+    let mut r = H { n: [0; MAXH], v: [0; MAXH], len: 2 };
+    r.n[0] = b'a';
+    r.v[0] = 0;
+    r.n[1] = b'B';
+    r.v[1] = hv[0];
+    kani::assume(hv[0] != 0);
+    let mut k = 0;
+    while k < K {
+        kani::assume(fv[k] != 0);
+        r = apply(acts[k], b'a', fv[k], &r);
+        k += 1;
+    }
+    assert!(out.len() == r.len);
+    let mut i = 0;
+    while i < MAXH {
+        if i < r.len && i < out.len() {
+            assert!(out[i].name.as_bytes()[0] == r.n[i]);
+            if r.v[i] == 0 {
+                assert!(out[i].value.is_empty());
+            } else {
+                assert!(out[i].value.len() == 1 && out[i].value.as_bytes()[0] == r.v[i]);
+            }
+        }
+        i += 1;
+    }
+    std::mem::forget(out);
+}
+
 fn check2<const K: usize>(acts: [u8; K]) {
+    check_cfg_empty_value::<K>(acts);
     let f_same: [u8; K] = [b'a'; K];
     let mut f_mixed: [u8; K] = [b'A'; K];
     f_mixed[K - 1] = b'b';
@@ -200,3 +249,30 @@ hdr1!(c13_override_m3, 3, 3);
 hdr1!(c13_remove_m3, 1, 3);
 hdr1!(c13_replace_m3, 2, 3);
 hdr1!(c13_default_m3, 4, 3);
+
+// the remaining ordered pairs of operations (thorough tier)
+hdr2!(c13_add_add_m2, 0, 0, 2);
+hdr2!(c13_add_unknown_m2, 0, 5, 2);
+hdr2!(c13_remove_add_m2, 1, 0, 2);
+hdr2!(c13_remove_remove_m2, 1, 1, 2);
+hdr2!(c13_remove_replace_m2, 1, 2, 2);
+hdr2!(c13_remove_override_m2, 1, 3, 2);
+hdr2!(c13_remove_unknown_m2, 1, 5, 2);
+hdr2!(c13_replace_add_m2, 2, 0, 2);
+hdr2!(c13_replace_remove_m2, 2, 1, 2);
+hdr2!(c13_replace_replace_m2, 2, 2, 2);
+hdr2!(c13_replace_default_m2, 2, 4, 2);
+hdr2!(c13_replace_unknown_m2, 2, 5, 2);
+hdr2!(c13_override_add_m2, 3, 0, 2);
+hdr2!(c13_override_replace_m2, 3, 2, 2);
+hdr2!(c13_override_override_m2, 3, 3, 2);
+hdr2!(c13_override_default_m2, 3, 4, 2);
+hdr2!(c13_default_add_m2, 4, 0, 2);
+hdr2!(c13_default_remove_m2, 4, 1, 2);
+hdr2!(c13_default_override_m2, 4, 3, 2);
+hdr2!(c13_default_default_m2, 4, 4, 2);
+hdr2!(c13_default_unknown_m2, 4, 5, 2);
+hdr2!(c13_unknown_add_m2, 5, 0, 2);
+hdr2!(c13_unknown_remove_m2, 5, 1, 2);
+hdr2!(c13_unknown_replace_m2, 5, 2, 2);
+hdr2!(c13_unknown_default_m2, 5, 4, 2);
